@@ -1,6 +1,6 @@
 #!/bin/sh
 # ftimes.sh <unit.rs> : per-function SMT time / rlimit of a generated unit (authoring aid)
-cd "$(dirname "$1")" && verus "$(basename "$1")" --rlimit ${RL:-60} --output-json --time ${SEED:+--smt-option smt.random_seed=$SEED} 2>/dev/null | python3 -c "
+cd "$(dirname "$1")" && RUST_MIN_STACK=4294967296 verus "$(basename "$1")" --rlimit ${RL:-60} --output-json --time ${SEED:+--smt-option smt.random_seed=$SEED} 2>/dev/null | python3 -c "
 import json,sys
 j=json.load(sys.stdin)
 for mt in j['times-ms']['smt']['smt-run-module-times']:
